@@ -66,7 +66,16 @@ def apply_op(live, op):
             if op["op"] == "call":
                 s = live[op["slot"]]
                 pts = np.array(op["pts"], dtype=float)
-                return observe(s(pts, op["t"]))
+                # requests of one shape to one solver object go through ONE array that is updated in place, as a script stepping
+                # a mesh does (a memo keyed on the identity of the points array then returns stale values deterministically,
+                # instead of depending on whether the allocator happens to reuse an address: seeded change S2-C06-3)
+                key = "_buf:%s:%s" % (op["slot"], pts.shape)
+                buf = live.get(key)
+                if buf is None:
+                    buf = live[key] = pts
+                else:
+                    buf[...] = pts
+                return observe(s(buf, op["t"]))
             if op["op"] == "nop":
                 return {"kind": "ok", "digest": "ok"}
             if op["op"] == "mut":
